@@ -2044,6 +2044,59 @@ def mutable_types_scan() -> dict:
 
 
 # ------------------------------------------------------------------------------ translator
+# ------------------------------------------------------------------------------ the casting table (F&O 3.1 §19.1.1)
+CAST_TYPES = ['untypedAtomic', 'string', 'float', 'double', 'decimal', 'integer', 'duration', 'yearMonthDuration',
+              'dayTimeDuration', 'dateTime', 'time', 'date', 'gYearMonth', 'gYear', 'gMonthDay', 'gDay', 'gMonth', 'boolean',
+              'base64Binary', 'hexBinary', 'anyURI', 'QName']          # the order of the recommendation (= XSD.castTypes)
+_STR_PROBES = ['1', 'abc', 'true', '2000-01-01', 'P1D', 'xs:a', '0F', '12:00:00', '2000-01-01T00:00:00', '2000', '2000-01',
+               '--01', '--01-01', '---01', 'P1Y', 'PT1S', '%zz']
+CAST_PROBES = {       # fixed source values per type: every value class that decides between Y and M
+    'untypedAtomic': [f"xs:untypedAtomic('{x}')" for x in _STR_PROBES],
+    'string': [f"'{x}'" for x in _STR_PROBES],
+    'float': ["xs:float('1.5')", "xs:float('NaN')", "xs:float('INF')", "xs:float('0')"],
+    'double': ['1.5e0', "xs:double('NaN')", "xs:double('-INF')", '0e0', '1e300'],
+    'decimal': ['1.5', '0.0', '-7.0', '12345678901234567890.5'],
+    'integer': ['0', '1', '-7', '123456789012345678901234567890'],
+    'duration': ["xs:duration('P1Y2M3DT4H')", "xs:duration('PT0S')"],
+    'yearMonthDuration': ["xs:yearMonthDuration('P14M')"], 'dayTimeDuration': ["xs:dayTimeDuration('PT36H')"],
+    'dateTime': ["xs:dateTime('2000-01-01T12:00:00Z')", "xs:dateTime('1999-12-31T23:59:59.5')"],
+    'time': ["xs:time('12:00:00')"], 'date': ["xs:date('2000-02-29Z')"], 'gYearMonth': ["xs:gYearMonth('2000-02')"],
+    'gYear': ["xs:gYear('2000')"], 'gMonthDay': ["xs:gMonthDay('--02-29')"], 'gDay': ["xs:gDay('---31')"],
+    'gMonth': ["xs:gMonth('--02')"], 'boolean': ['true()', 'false()'],
+    'base64Binary': ["xs:base64Binary('QUJD')", "xs:base64Binary('')"], 'hexBinary': ["xs:hexBinary('0F')", "xs:hexBinary('')"],
+    'anyURI': ["xs:anyURI('http://a/b')", "xs:anyURI('')"], 'QName': ["xs:QName('xs:a')", "xs:QName('local')"],
+    # derived types (= XSD.derivedTypes, same order)
+    'byte': ["xs:byte('1')"], 'short': ["xs:short('300')"], 'int': ["xs:int('70000')"], 'long': ["xs:long('5000000000')"],
+    'unsignedByte': ["xs:unsignedByte('200')"], 'unsignedShort': ["xs:unsignedShort('40000')"],
+    'unsignedInt': ["xs:unsignedInt('3000000000')"], 'unsignedLong': ["xs:unsignedLong('10000000000000000000')"],
+    'nonNegativeInteger': ["xs:nonNegativeInteger('7')"], 'positiveInteger': ["xs:positiveInteger('7')"],
+    'nonPositiveInteger': ["xs:nonPositiveInteger('-7')"], 'negativeInteger': ["xs:negativeInteger('-7')"],
+    'normalizedString': ["xs:normalizedString('a b')"], 'token': ["xs:token('a b')"], 'language': ["xs:language('en')"],
+    'NMTOKEN': ["xs:NMTOKEN('a')"], 'Name': ["xs:Name('a')"], 'NCName': ["xs:NCName('a')"], 'ID': ["xs:ID('a')"],
+    'IDREF': ["xs:IDREF('a')"], 'ENTITY': ["xs:ENTITY('a')"], 'dateTimeStamp': ["xs:dateTimeStamp('2000-01-01T00:00:00Z')"],
+}
+ALL_CAST_TYPES = list(CAST_PROBES)       # the 22 table types, then the 22 derived types
+
+
+def cast_probe_results(impl, form: str, s: str, t: str):
+    """the outcomes ('ok' or the error code) of applying the cast / the constructor function of t to every probe value of s"""
+    out = []
+    for e in CAST_PROBES[s]:
+        expr = f'({e}) cast as xs:{t}' if form == 'cast' else f'xs:{t}({e})'
+        k, r = impl.xpath('31', '1.1', expr, {})
+        out.append('ok' if k == 'ok' else r)
+    return out
+
+
+def cast_verdict(results) -> str:
+    """Y: every probe value is cast; N: every one is refused as a type error (XPTY0004); M: anything else"""
+    if all(r == 'ok' for r in results):
+        return 'Y'
+    if all(r == 'ERR:XPTY0004' for r in results):
+        return 'N'
+    return 'M'
+
+
 def translate_tables(run: Run) -> dict:
     import re
     from elementpath.datatypes import builtin_atomic_types, Integer
@@ -2157,13 +2210,30 @@ def translate_tables(run: Run) -> dict:
     out.append('/-- pattern source text of each builtin atomic type (LazyPattern._pattern) -/')
     out.append('def patterns : List (String × String) := [')
     out.append(',\n'.join(f'  ({lean_str(n)}, {lean_str(p)})' for n, p in pats) + ']')
+    # the casting table of the live code: for every pair of types the verdict derived from the dispatch of the constructor
+    # (`cast as` and the constructor function separately) on the fixed probe values
+    impl_ = Impl()
+    cast_tables = {}
+    for form in ('cast', 'ctor'):
+        verd = {(a, b): cast_verdict(cast_probe_results(impl_, form, a, b)) for a in ALL_CAST_TYPES for b in ALL_CAST_TYPES}
+        cast_tables[form] = verd
+        cname = 'Cast' if form == 'cast' else 'Ctor'
+        out.append(f'/-- verdicts of `{"E cast as xs:T" if form == "cast" else "xs:T(E)"}` (XPath 3.1 parser, XSD 1.1) on the probe values '
+                   'of every source type: Y all succeed, N all raise XPTY0004, M otherwise; F&O table types, row-major -/')
+        out.append(f'def castVerdicts{cname} : List (String × String × String) := [')
+        out.append(',\n'.join('  ' + ', '.join(f'({lean_str(a)}, {lean_str(b)}, {lean_str(verd[(a, b)])})' for b in CAST_TYPES)
+                              for a in CAST_TYPES) + ']')
+        out.append(f'/-- the same for all constructible atomic types: is the pair permitted (verdict other than N) -/')
+        out.append(f'def castAllowed{cname} : List (String × String × Bool) := [')
+        out.append(',\n'.join('  ' + ', '.join(f'({lean_str(a)}, {lean_str(b)}, {"true" if verd[(a, b)] != "N" else "false"})'
+                                                for b in ALL_CAST_TYPES) for a in ALL_CAST_TYPES) + ']')
     out.append('end EPV.Gen.C10')
     text = '\n'.join(out) + '\n'
     gen = LEAN / 'EPV' / 'Gen' / 'C10Tables.lean'
     gen.parent.mkdir(exist_ok=True)
     if not gen.exists() or gen.read_text() != text:
         gen.write_text(text)
-    return {'integer_types': len(rows), 'whitespace_codepoints': len(white), 'name_table_ranges': {k: len(v) for k, v in name_tables.items()}, 'name_tables_agree_with_xml': agree,
+    return {'cast_table_cells': len(ALL_CAST_TYPES) ** 2, 'integer_types': len(rows), 'whitespace_codepoints': len(white), 'name_table_ranges': {k: len(v) for k, v in name_tables.items()}, 'name_tables_agree_with_xml': agree,
             'patterns': len(pats), 'rows': [(n, lo, hi) for n, lo, hi, _ in rows]}
 
 
